@@ -638,6 +638,41 @@ def gen_multi(rng, k0):
             s.do(['copy', rng.randrange(len(s.ars))]); s.do(['write', len(s.ars) - 1, rng.choice(['json', 'xml'])])
     return s
 
+# ------------------------------------------------------------------ the tag-collision table (every tier)
+TAG_KINDS = ['re', 'im', 't', 'c']          # a real tagged t_re / t_im / t, a complex tagged t
+OBJ_KINDS = ['elem', 'interm']              # an elementary number / a declared intermediate result()
+
+def gen_tag_block(k0, first_kind, tk2):
+    """For the tag 't': {real tagged t_re, real tagged t_im, real tagged t, complex tagged t} added FIRST x the same four
+    added SECOND, each party an elementary number or a result(); on an open archive, and with a copy() between the
+    two adds (the second add goes to the copy, the original is then written as well).  One program per first party and
+    second tag kind (keeps the observed state small)."""
+    s = ASession(k0)
+    for o in (['real', 'x', 16, -1, True], ['real', None, 8, -1, False], ['mul', 0, 1], ['result', 2, 'm'],
+              ['complex', 'z', 4, 8, -1, False], ['mul', 4, 4], ['result', 5, None], ['real', None, 3, 5, True],
+              ['mul', 7, 0], ['result', 8, None], ['complex', None, 2, 2, 5, True], ['mul', 10, 4], ['result', 11, 'zc']):
+        s.do(o)
+    # reals: elem 0 / 7, interm 3 / 9; complex: elem 4 / 10, interm 6 / 12  (first party uses the first of each, second the other)
+    OBJ = {('r', 'elem'): (0, 7), ('r', 'interm'): (3, 9), ('c', 'elem'): (4, 10), ('c', 'interm'): (6, 12)}
+    def party(tag_kind, obj_kind, which):
+        tag = {'re': 't_re', 'im': 't_im', 't': 't', 'c': 't'}[tag_kind]
+        return (tag, OBJ[('c' if tag_kind == 'c' else 'r', obj_kind)][which])
+    tk1, ok1 = first_kind
+    for ok2 in OBJ_KINDS:
+        for with_copy in (False, True):
+            s.do(['archive']); a = len(s.ars) - 1
+            s.do(['add', a, [party(tk1, ok1, 0)]])
+            if with_copy:
+                s.do(['copy', a]); c = len(s.ars) - 1
+                s.do(['add', c, [party(tk2, ok2, 1)]]); s.do(['write', c, 'json'])
+            else:
+                s.do(['add', a, [party(tk2, ok2, 1)]])
+            s.do(['write', a, 'json'])
+    return s
+
+def tag_block_sessions(k0=17):
+    return [gen_tag_block(k0, (tk, ok), tk2) for tk in TAG_KINDS for ok in OBJ_KINDS for tk2 in TAG_KINDS]
+
 def run_corr(rng, tier):
     n_rand = 110 if tier == 'quick' else 3000
     sessions = []; dist = {}; rows = {}
@@ -652,6 +687,10 @@ def run_corr(rng, tier):
             s = gen_collision(11 + len(sessions) % 3, v, f)
             rows['collision/%s/%s' % (v, f)] = [oc for o, oc in zip(s.ops, s.outcomes) if o[0] == 'read'][-1]
             sessions.append(('row', s.close()))
+    for s in tag_block_sessions():
+        for o, oc in zip(s.ops, s.outcomes):
+            if o[0] == 'add': rows['tags/%s' % json.dumps(o[2])] = rows.get('tags/%s' % json.dumps(o[2]), '') + oc[0]
+        sessions.append(('row', s.close()))
     for h in EXTRA:
         sessions.append(('row', run_history(13, [list(o) for o in h]).close()))
     for i in range(40 if tier == 'quick' else 600):
@@ -689,7 +728,7 @@ def run_corr(rng, tier):
                      'leaves, correlations declared between the writes, read back in other sessions in random orders); '
                      'after EVERY step the outcome and the whole observable state are compared (63-bit '
                      'hash of the observation tree); distinct = number of distinct observation traces'
-                     % (len(ROW_STATES) * len(ROW_OPS) + 3 * len(COLLISIONS) + len(EXTRA), n_rand)),
+                     % (len(ROW_STATES) * len(ROW_OPS) + 3 * len(COLLISIONS) + len(EXTRA) + len(TAG_KINDS) ** 2 * len(OBJ_KINDS), n_rand)),
             'samples': [{'k0': s.k0, 'ops': s.ops[:12], 'outcomes': s.outcomes[:12]} for _, s in sessions[-2:]]}
 
 def diagnose(mm):
